@@ -115,16 +115,30 @@ impl_refs! {
     (A 0, B 1, C 2, D 3, E 4, F 5, G 6) (A 0, B 1, C 2, D 3, E 4, F 5, G 6, H 7)
 }
 
-/// `try_get_multiple_mut::<Tup>()`, then `+= d` through every returned reference.
-pub fn multi_finish<'b, Tup>(r: &'b mut Rg, d: u64) -> String
+/// What to do with a tuple: the increment written through every reference, and which accessor to use.
+#[derive(Clone, Copy)]
+pub struct MArg { pub d: u64, pub panicking: bool }
+
+fn refs_out<R: RefsApply>(refs: R, d: u64) -> String {
+    let (vals, ptrs) = refs.apply(d);
+    let mut p = ptrs.clone(); p.sort(); p.dedup();
+    if p.len() != ptrs.len() { "alias".into() } else { tagged("vals", vals.iter().map(|v| v.to_string())) }
+}
+
+/// `try_get_multiple_mut::<Tup>()` (or the panicking `get_multiple_mut::<Tup>()`), then `+= d` through every
+/// returned reference; `alias` if two of the returned references point to the same object.
+pub fn multi_finish<'b, Tup>(r: &'b mut Rg, a: MArg) -> String
 where Tup: MultiStateTuple<'b, 'static>, Tup::References: RefsApply {
-    match r.try_get_multiple_mut::<Tup>() {
-        Ok(refs) => {
-            let (vals, ptrs) = refs.apply(d);
-            let mut p = ptrs.clone(); p.sort(); p.dedup();
-            if p.len() != ptrs.len() { "alias".into() } else { tagged("vals", vals.iter().map(|v| v.to_string())) }
+    if a.panicking {
+        match catch(move || r.get_multiple_mut::<Tup>()) {
+            Some(refs) => refs_out(refs, a.d),
+            None => "panic".into(),
         }
-        Err(e) => err_s(&e),
+    } else {
+        match r.try_get_multiple_mut::<Tup>() {
+            Ok(refs) => refs_out(refs, a.d),
+            Err(e) => err_s(&e),
+        }
     }
 }
 
@@ -158,15 +172,15 @@ macro_rules! multi_fixed { ($keys:ident, $r:ident, $d:ident; $(($($t:ident $n:tt
     $( if $keys == [$($n),+] { return Some(multi_finish::<($($t),+)>($r, $d)); } )*
 }}
 
-fn multi_u2(keys: &[u64], r: &mut Rg, d: u64) -> Option<String> {
+fn multi_u2(keys: &[u64], r: &mut Rg, d: MArg) -> Option<String> {
     multi_tree!(keys, r, d, 0, (K0 0, K1 1), [], [x x x x x x x x])
 }
-fn multi_u4(keys: &[u64], r: &mut Rg, d: u64) -> Option<String> {
+fn multi_u4(keys: &[u64], r: &mut Rg, d: MArg) -> Option<String> {
     multi_tree!(keys, r, d, 0, (K0 0, K1 1, K2 2, K3 3), [], [x x x x])
 }
 /// Tuples over all eight types (arity 5..8): a fixed set — all-distinct permutations and ones with a
 /// repetition at different positions.
-fn multi_u8(keys: &[u64], r: &mut Rg, d: u64) -> Option<String> {
+fn multi_u8(keys: &[u64], r: &mut Rg, d: MArg) -> Option<String> {
     multi_fixed!(keys, r, d;
         (K0 0, K1 1, K2 2, K3 3, K4 4) (K4 4, K3 3, K2 2, K1 1, K0 0) (K7 7, K2 2, K5 5, K0 0, K3 3)
         (K0 0, K1 1, K2 2, K3 3, K0 0) (K5 5, K5 5, K6 6, K7 7, K4 4) (K1 1, K6 6, K3 3, K6 6, K2 2)
@@ -195,7 +209,7 @@ pub fn multi_supported(keys: &[u64]) -> bool {
     (2..=8).contains(&n) && (keys.iter().all(|&k| k < 2) || (n <= 4 && keys.iter().all(|&k| k < 4)) || U8_TUPLES.contains(&keys))
 }
 
-pub fn multi(keys: &[u64], r: &mut Rg, d: u64) -> String {
+pub fn multi(keys: &[u64], r: &mut Rg, d: MArg) -> String {
     let o = if keys.iter().all(|&k| k < 2) { multi_u2(keys, r, d) }
         else if keys.len() <= 4 && keys.iter().all(|&k| k < 4) { multi_u4(keys, r, d) }
         else { multi_u8(keys, r, d) };
@@ -262,10 +276,10 @@ pub fn exec_rop(state: &mut St, op: &Sx) -> String {
     match name {
         "push" => { push(state); return "ok".into(); }
         "pop" => return pop(state),
-        "multi" => {
+        "multi" | "multip" => {
             let keys: Vec<u64> = a[0].items().unwrap().iter().map(|x| x.nat().unwrap()).collect();
-            let d = n(a, 1);
-            return or_panic(catch(|| multi(&keys, &mut **state, d)));
+            let arg = MArg { d: n(a, 1), panicking: name == "multip" };
+            return multi(&keys, &mut **state, arg);
         }
         "parins" => {
             let (d, k, v) = (n(a, 0), n(a, 1), n(a, 2));
